@@ -177,7 +177,7 @@ func TestVerifC18Pipeline(t *testing.T) {
 					for i := 0; i < sent; i++ {
 						if !rel[i] {
 							rel[i] = true
-							rec(append(ev, -(i + 1)), sent, rel)
+							rec(append(ev, -(i+1)), sent, rel)
 							delete(rel, i)
 						}
 					}
